@@ -401,6 +401,28 @@ def gen_cases(ctx, quick):
             add("linear-kernel-pts", "kpca", "dense", "pts", pts, N, D, d, sp.is_pow2(N), rank)
             if rank <= d:
                 add("linear-kernel-pts", "kpca", "rand", "pts", pts, N, D, d, False, rank)
+        # 7. degenerate ranks (seeded change C05-v3 needed this family): RANK 0 — all samples coincide (points), the
+        #    all-zero distance matrix, a constant kernel — and two coincident clusters (rank 1 after centring).  The centred
+        #    matrix of a rank-0 input is identically zero: the optimal factor is the zero embedding, every distance (0) is
+        #    reproduced; the Dense solver must return it (the Randomized solver's documented eigendecomposition_error on a
+        #    numerically zero matrix is accepted in judge()).
+        N = r.choice([2, 3, 4, 5, 8])
+        D = r.range(1, 3)
+        p0 = [Fraction(r.range(-9, 9)) for _ in range(D)]
+        for d in sorted({1, N - 1}):
+            add("rank0-coincident", "mds", "dense", "pts", [list(p0) for _ in range(N)], N, D, d, D == 1 and sp.is_pow2(N), 0)
+            add("rank0-coincident", "kpca", "dense", "pts", [list(p0) for _ in range(N)], N, D, d, sp.is_pow2(N), 0)
+            add("rank0-coincident", "mds", "dense", "dist", [[Fraction(0)] * N for _ in range(N)], N, 0, d, True, None)
+            kc = Fraction(r.range(0, 7))
+            add("rank0-coincident", "kpca", "dense", "kern", [[kc] * N for _ in range(N)], N, 0, d, sp.is_pow2(N), None)
+        if N >= 3:
+            p1 = [p0[0] + r.range(1, 5)] + p0[1:]
+            split = r.range(1, N - 1)
+            pts = [list(p0) if i < split else list(p1) for i in range(N)]
+            for d in sorted({1, 2 if N > 2 else 1}):
+                add("two-clusters-rank1", "mds", "dense", "pts", pts, N, D, d, D == 1 and sp.is_pow2(N), 1)
+                add("two-clusters-rank1", "kpca", "dense", "pts", pts, N, D, d, sp.is_pow2(N), 1)
+                add("two-clusters-rank1", "mds", "rand", "pts", pts, N, D, d, False, 1)
     return cases
 
 
